@@ -260,6 +260,11 @@ class Interp(object):
             raise AnalysisError('call of %s outside whitelist' % f.id)
         if isinstance(f, ast.Attribute):
             o = self.expr(f.value)
+            if isinstance(o, Obj):
+                # methods of a record are models supplied by the analyser (never repo code)
+                m = o.attrs.get('__methods__', {}).get(f.attr)
+                if m is None: raise AnalysisError('method .%s of a record has no model' % f.attr)
+                return m(*args, **kwargs)
             ok = (isinstance(o, str) and f.attr in STR_METHODS) or \
                  (isinstance(o, list) and f.attr in LIST_METHODS) or \
                  (isinstance(o, dict) and f.attr in DICT_METHODS) or \
